@@ -139,6 +139,22 @@ template <typename A> static std::string layout_check(const L& s, bool colmajor)
         seen.insert(off); k++;
     });
     if (err.empty() && (long)seen.size() != N) err = "offsets not injective";
+    if (!err.empty()) return err;
+    // the same addressing through a copy-constructed and a copy-assigned object (the layout travels with the object)
+    auto recheck = [&](const A& b, const char* how) {
+        long kk = 0;
+        nmc::each_index(s, [&](const L& i) {
+            if (!err.empty()) return;
+            auto ii = to_sl(i);
+            long off = &nm::apply_at(b, ii) - b.data();
+            long want = 0; for (size_t x = 0; x < d; x++) want += i[x] * st[x];
+            if (off != want) err = std::string(how) + ": " + (colmajor ? "column" : "row") + "-major offset of " + nmc::str(i) + " = " + std::to_string(off) + " expected " + std::to_string(want);
+            else if (nm::apply_at(b, ii) != 1000 + kk) err = std::string(how) + ": read-back at " + nmc::str(i) + " = " + std::to_string((long)nm::apply_at(b, ii));
+            kk++;
+        });
+    };
+    { A b(a); recheck(b, "copy-constructed"); }
+    if (err.empty()) { A c2; c2 = a; recheck(c2, "copy-assigned"); }
     return err;
 }
 
